@@ -65,6 +65,7 @@ def run(rep, idx, tier):
         if ispec is not None:
             parameters(rep, idx, P, sig, idx.find_class(ispec))
     signature_census(rep, idx)
+    _glue.parameter_views(rep, "C20.4", idx)
 
 
 def signature_census(rep, idx):
